@@ -15,7 +15,7 @@ from . import common, c04
 ID = "C07"
 NEEDS_MODEL = True
 LEVEL = "exploration"
-N = {"quick": 2000, "thorough": 24000}
+N = {"quick": 2000, "thorough": 60000}
 CLASSES = ["plain", "shape", "occupancy", "flatten", "affine", "cascade"]
 TECHNIQUE = ("runtime monitoring: namespace / rank-id / ownership monitors on instrumented "
              "executions of emitted programs on the reference model")
